@@ -82,6 +82,10 @@ func c17(r *vlib.Run) int {
 			c17Damaged(r, i, crng, keys, keyFiles, client)
 			return
 		}
+		if i%16 == 5 {
+			c17OutputModes(r, i, crng, keys, keyFiles, client)
+			return
+		}
 		if i%8 == 7 {
 			c17Reconnect(r, i, crng, keys, keyFiles, client)
 			return
@@ -423,6 +427,59 @@ func c17Reconnect(r *vlib.Run, i int, rng *rand.Rand, keys []*vlib.Key, keyFiles
 				"connection": c, "first_key_known": firstKnown, "connections": conns})
 			return
 		}
+	}
+}
+
+// c17OutputModes: the output options (--plain, --quiet, --noColor, spartan
+// combinations) have nothing to do with trust: an unknown host the user does not
+// approve (answer no, or no answer at all) receives no commands with any of
+// them, and a known host is served with all of them.
+func c17OutputModes(r *vlib.Run, i int, rng *rand.Rand, keys []*vlib.Key, keyFiles []string, client *vlib.Key) {
+	port := vlib.FreePort()
+	k1 := rng.Intn(5)
+	home, keyFile := r.ClientHome(fmt.Sprintf("c17o-%d", i), client)
+	defer os.RemoveAll(home)
+	addr := fmt.Sprintf("127.0.0.1:%d", port)
+	lines := c17Unrelated(rng, keys)
+	known := rng.Intn(3) == 0
+	if known {
+		lines = append(lines, khLine(addr, keys[k1]))
+	}
+	khPath := filepath.Join(home, ".ssh", "known_hosts")
+	os.WriteFile(khPath, []byte(strings.Join(lines, "\n")+"\n"), 0600)
+	f, err := startFakeSSHD(r, fmt.Sprintf("c17o-%d", i), []int{port}, []string{keyFiles[k1]}, "", 200)
+	if err != nil {
+		r.Inconclusive("fakesshd")
+		return
+	}
+	defer f.Stop()
+	mode := [][]string{{"--plain"}, {"--quiet"}, {"--plain", "--quiet"}, {"--noColor"}, {"--quiet", "--noColor"}}[rng.Intn(5)]
+	args := append([]string{"--cfg", "none", "--logger", "none", "--key", keyFile, "--user", "tester", "--servers", addr, "--files", "/var/log/x.log"}, mode...)
+	pr, pw, _ := os.Pipe()
+	if rng.Intn(2) == 0 {
+		pw.WriteString("n\nn\nn\n")
+	}
+	defer pw.Close()
+	p := fmt.Sprintf("/proc/%d/fd/%d", os.Getpid(), pr.Fd())
+	res := vlib.RunCmd(vlib.Cmd{Path: r.Bin("dcat"), Args: args, Env: []string{"HOME=" + home}, Dir: home, StdinFile: p, Watchdog: 12 * time.Second, NoHangCheck: true})
+	pr.Close()
+	_ = res // a client that waits for an answer nobody gives is ended by the watchdog: judged by what the server saw
+	r.Eval(fmt.Sprintf("output-mode|%v|%v", mode, known))
+	r.Count("output_mode_cases", 1)
+	got := false
+	for _, e := range f.Events() {
+		if e.Ev == "shell" || e.Ev == "data" {
+			got = true
+		}
+	}
+	switch {
+	case !known && got:
+		r.Violation("untrusted-server-received-commands", map[string]interface{}{"scenario": "unknown host, the user did not approve it", "options": mode})
+	case known && !got:
+		r.Violation("trusted-server-not-contacted", map[string]interface{}{"scenario": "known host", "options": mode})
+	}
+	if b, err := os.ReadFile(khPath); err == nil && !known && strings.Contains(string(b), fmt.Sprintf("[127.0.0.1]:%d", port)) {
+		r.Violation("refused-host-recorded", map[string]interface{}{"scenario": "unknown host, not approved", "options": mode})
 	}
 }
 
